@@ -91,6 +91,7 @@ def toml_value(v):
 
 # option table: name -> dict(sources -> (how to set, raw value), builtin, observe)
 UNOBSERVED = '<the command does not use this option>'
+SPECIAL_FILES = ('/proc/sys/kernel/ostype', '/proc/sys/kernel/osrelease', '/proc/version')
 
 
 def call_kwarg(rec, methods, kw):
@@ -123,6 +124,19 @@ def option_table(root):
         'observe': lambda rec: call_kwarg(rec, ('init', 'unlock'), 'password'),
         'coerce': lambda v: v.encode() if isinstance(v, str) and not v.startswith('/') else
         (Path(v).read_bytes() if isinstance(v, str) else v)}
+    if all(os.path.exists(p_) and os.stat(p_).st_size == 0 for p_ in SPECIAL_FILES):
+        # the same two options naming files whose size the file system reports as 0 although they have content
+        # (procfs here; pipes and process substitutions behave alike): every source must deliver the content
+        T['password-file#special'] = {
+            'cli': (['-P', SPECIAL_FILES[0]], Path(SPECIAL_FILES[0]).read_bytes()), 'env': ('REPLICAT_PASSWORD', 'pw-in-env'),
+            'profile': ('password-file', SPECIAL_FILES[1]), 'default': ('password-file', SPECIAL_FILES[2]), 'builtin': None,
+            'observe': lambda rec: call_kwarg(rec, ('init', 'unlock'), 'password'),
+            'coerce': lambda v: v.encode() if isinstance(v, str) and not v.startswith('/') else
+            (Path(v).read_bytes() if isinstance(v, str) else v)}
+        T['key-file#special'] = {
+            'cli': (['-K', SPECIAL_FILES[0]], Path(SPECIAL_FILES[0]).read_bytes()), 'profile': ('key-file', SPECIAL_FILES[1]),
+            'default': ('key-file', SPECIAL_FILES[2]), 'builtin': None, 'observe': lambda rec: call_kwarg(rec, ('unlock',), 'key'),
+            'coerce': lambda v: Path(v).read_bytes() if isinstance(v, str) else v}
     T['key-file'] = {
         'cli': (['-K', str(root / 'key-cli')], b'key-cli-contents'), 'profile': ('key-file', str(root / 'key-prof')),
         'default': ('key-file', str(root / 'key-dflt')), 'builtin': None, 'observe': lambda rec: call_kwarg(rec, ('unlock',), 'key'),
